@@ -233,21 +233,35 @@ class Check:
                 self.log("audit: %s -> %s" % (th, res.get(th, "missing: " + out[-400:])))
         return good
 
-    def hygiene(self):
-        """no sorry/admit/axiom/native_decide/... in the Lean sources (comments stripped roughly)"""
+    def _lean_closure(self, modules):
+        """source files of the given modules and of everything under Dawn/ they import, transitively"""
+        seen, todo = {}, list(modules)
+        while todo:
+            m = todo.pop()
+            if m in seen or not (m.startswith("Dawn.") or m.startswith("Driver.")):
+                continue
+            path = os.path.join(LEAN, *m.split(".")) + ".lean"
+            if not os.path.exists(path):
+                continue
+            src = open(path).read()
+            seen[m] = (path, src)
+            todo += re.findall(r"^\s*(?:public\s+)?import\s+([A-Za-z0-9_.]+)", src, re.M)
+        return seen
+
+    def hygiene(self, modules=None):
+        """no sorry/admit/axiom/native_decide/... in the Lean sources this property's obligations depend on
+        (comments and string literals stripped)"""
         bad = []
         pat = re.compile(r"\b(sorry|admit|native_decide|bv_decide|implemented_by|unsafe)\b|^\s*axiom\s|maxHeartbeats\s+0\b", re.M)
-        for root, _, files in os.walk(os.path.join(LEAN, "Dawn")):
-            for fn in files:
-                if not fn.endswith(".lean"):
-                    continue
-                src = open(os.path.join(root, fn)).read()
-                src = re.sub(r"/-.*?-/", "", src, flags=re.S)
-                src = re.sub(r"--[^\n]*", "", src)
-                src = re.sub(r'"(\\.|[^"\\])*"', '""', src)
-                m = pat.search(src)
-                if m:
-                    bad.append("%s: %s" % (fn, m.group(0).strip()))
+        if modules is None:
+            modules = load_obligations().get(self.pid, {}).get("modules", [])
+        for m, (path, src) in sorted(self._lean_closure(modules).items()):
+            src = re.sub(r"/-.*?-/", "", src, flags=re.S)
+            src = re.sub(r"--[^\n]*", "", src)
+            src = re.sub(r'"(\\.|[^"\\])*"', '""', src)
+            mm = pat.search(src)
+            if mm:
+                bad.append("%s: %s" % (m, mm.group(0).strip()))
         return bad
 
     # ------------------------------------------------------------------ tie 2
